@@ -331,6 +331,17 @@ class SGen(coregen.Gen):
     def simple_t(self, t, d, ctx):
         return super().simple_t(t, d, dict(ctx, in_tuple=True))
 
+    def ifexpr(self, t, d, ctx):
+        """known finding F3 (stateful constructs in both arms of an `if`): argument code may be stateful, so inside a
+        template the holes are not used in `if` arms (they are in conditions)"""
+        if ctx.get("holes") and self.p.get("avoid_f3", True):
+            actx = dict(ctx, allow_state=False, in_arm=True, vars=[v for v in ctx["vars"] if v[0] not in ctx["holes"]], holes=None)
+            then, els = self.block(t, d, actx), self.block(t, d, actx)
+            if self.p.get("avoid_f20", True) and t == F:
+                then = self.no_bare_proj_tail(then)
+            return Node("if", self.cond(max(d, 1), ctx), then, els)
+        return super().ifexpr(t, d, ctx)
+
     # -- pieces ------------------------------------------------------------------------------
     def template(self, holes, d, ctx, stmts=None, flat=False):
         """random core block over the hole variables; returns the quote node. `flat`: no binder inside (for templates
@@ -340,7 +351,7 @@ class SGen(coregen.Gen):
         self.in_macro += 1
         # `self` would be converted against the macro function (convert_self precedes staging): templates do not use it
         # (a lambda bound inside a block in operand position next to `self` trips the type checker: templates bind none)
-        tctx = dict(ctx, vars=[(h, F, False) for h in holes], self_type=None, used_self=[False], in_lambda=True)
+        tctx = dict(ctx, vars=[(h, F, False) for h in holes], self_type=None, used_self=[False], in_lambda=True, holes=set(holes))
         n = self.r.below(3) if stmts is None else stmts
         # known finding F17: an `if` anywhere inside a tuple component makes mirgen panic (alloc_aggregates inserts into
         # the wrong basic block): templates expanded inside a tuple literal are `if`-free (depth 0)
@@ -556,6 +567,9 @@ C10_TEMPLATES = [
     ("let-mem", lambda B: Node("let", B, Node("mem", _sp("x"), 1), _b("add", _v(B), _sp("x")))),
     ("splice-next-to", lambda B: Node("let", "s", _sp("x"), Node("let", B, _l("10.0"), _b("add", _v("s"), _v(B))))),
     ("assign", lambda B: Node("let", B, _l("10.0"), Node("set", B, _b("add", _v(B), _sp("x")), _v(B)))),
+    ("if-arm", lambda B: Node("let", "c", Node("if", _b("ge", _sp("x"), _l("0.0")), Node("let", B, _l("10.0"), _b("add", _v(B), _sp("x"))), _sp("x")), _v("c"))),
+    ("inner-block", lambda B: Node("let", "s", Node("let", B, _sp("x"), _b("mul", _v(B), _l("2.0"))), _b("add", _v("s"), _sp("x")))),
+    ("rebind", lambda B: Node("let", B, _l("10.0"), Node("let", B, _b("add", _v(B), _sp("x")), _v(B)))),
 ]
 
 # argument code (only pool names and time)
